@@ -9,9 +9,131 @@
 -/
 import PyTough.Model.Listing
 import PyTough.Proofs.Listing
+import PyTough.Proofs.ListingRows
+import PyTough.Proofs.ListingValues
 
 namespace Props.C05
-open Py Model Model.Listing Proofs.Listing
+open Py Model Model.Listing Proofs.Listing Proofs.Rows Proofs.Values
+
+/-! ### each cell equals the number printed in that row and column (TOUGH2 family: fixed columns) -/
+
+/-- **Column inference.**  The longest line of a table is `P ++ fields ++ tail`: a prefix `P` (keys and index,
+    no decimal point) that ends where `start_of_values` says the values start, then number fields, each `pad`
+    blanks followed by a number text with exactly one decimal point and no blank (`Cell.WF`), consecutive fields
+    related by `Sep`: either a blank in front of the next number, or the next number fills its field and this one
+    ends in `E`, sign, two digits.  Then `parse_table_line` returns exactly the column where each field starts,
+    followed by the length of the line.  (First column not the integer column `I` of ECO2M tables.) -/
+theorem column_boundaries_correct (P : Str) (cells : List Cell) (tail : Str) (cols : List Str) (c0 : Str) (cs : List Str)
+    (hcols : cols = c0 :: cs) (hI : c0 ≠ ['I'])
+    (hP : '.' ∉ P) (ht : '.' ∉ tail) (hwf : ∀ c ∈ cells, c.WF) (hsep : SepChain cells) (hne : cells ≠ []) :
+    parseTableLine (P ++ (renderAll cells ++ tail)) (some (P.length : Int)) cols
+      = .ok ((starts P.length cells ++ [(P ++ (renderAll cells ++ tail)).length]).map natPos) := by
+  rw [parseTableLine_cells P cells tail cols c0 cs hcols hI hP ht hwf hsep hne]
+  simp [numposOf, natPos]
+
+/-- **Row slicing.**  With boundaries `b₀ … bₙ` (as inferred above) `read_table_line_TOUGH2` never raises on any
+    line whatsoever, returns at least `ncols` values, value `k` is `fortran_float` of columns `[b_k, b_{k+1})` of the
+    row, and the values beyond the inferred fields are 0.0. -/
+theorem row_slicing_correct (row : Str) (ncols : Nat) (bounds : List Nat) :
+    ∃ vals, readTableLineTOUGH2 row ncols (bounds.map natPos) = .ok vals ∧
+      (∀ (k a b : Nat), bounds[k]? = some a → bounds[k + 1]? = some b → vals[k]? = some (readField (slice row a b))) ∧
+      (∀ (k : Nat), bounds.length - 1 ≤ k → k < ncols → vals[k]? = some zero) := by
+  refine ⟨_, readTableLineTOUGH2_eq row ncols bounds, ?_, ?_⟩
+  · intro k a b ha hb
+    have h := fieldTexts_get row bounds k a b ha hb
+    have hlt : k < ((fieldTexts row bounds).map readField).length := by
+      rcases Nat.lt_or_ge k (fieldTexts row bounds).length with h1 | h1
+      · simpa using h1
+      · rw [List.getElem?_eq_none h1] at h; cases h
+    rw [List.getElem?_append_left hlt, List.getElem?_map, h]; rfl
+  · intro k hk hkn
+    have hlen : ((fieldTexts row bounds).map readField).length = bounds.length - 1 := by
+      rw [List.length_map]
+      have : ∀ (l : List Nat), (fieldTexts row l).length = l.length - 1 := by
+        intro l
+        induction l with
+        | nil => rfl
+        | cons x r ih => cases r with
+          | nil => rfl
+          | cons y r' => simp only [fieldTexts, List.length_cons] at ih ⊢; omega
+      exact this bounds
+    rw [List.getElem?_append_right (by omega), hlen]
+    rw [List.getElem?_replicate]
+    rw [if_pos (by omega)]
+
+/-- what `fortran_float` makes of the text of a field (C16): any Fortran rendering of a real — `E±dd`, `D`, three
+    exponent digits without the letter, negative, zero — padded with blanks anywhere, reads as the decimal
+    printed; a blank field, or one that lies beyond the end of a short row, reads as 0.0; a line terminator
+    behind the last field changes nothing. -/
+theorem field_value_printed (r : Proofs.FReal) (hr : r.WF) (s : Str) (hs : s.filter (· != ' ') = r.render) :
+    readField s = r.value := readField_real r hr s hs
+
+theorem blank_field_is_zero (s : Str) (h : ∀ c ∈ s, isStrWs c = true) : readField s = zero := readField_blank s h
+
+theorem field_beyond_row_is_zero (row : Str) (a b : Nat) (h : row.length ≤ a) : readField (slice row a b) = zero := by
+  rw [slice_beyond row a b h]; exact readField_blank [] (by simp)
+
+theorem line_terminator_ignored (s t : Str) (ht : ∀ c ∈ t, isNumWs c = true) : readField (s ++ t) = readField s :=
+  readField_append_ws s t ht
+
+-- the generation-table row of rfp.listing with its two trailing columns blank, and a row of adjacent numbers
+example : readTableLineTOUGH2 "      AA 1   INJ 1 1           0.37500E+01    0.50000E+06\n".toList 4 ([30, 42, 57, 70].map natPos)
+    = .ok [.fin false 37500 (-4), .fin false 50000 1, .fin false 0 0, .fin false 0 0] := by decide
+example : parseTableLine "  AA 1     1 0.99013E+07 0.00000E+00-0.12409E+03\n".toList (some 12) [['P'], ['T'], ['X']]
+    = .ok [some 12, some 24, some 36, some 49] := by decide
+example : readTableLineTOUGH2 "  BA 1     2 0.94153E+07 0.19209-103-0.66842E+01\n".toList 3 [some 12, some 24, some 36, some 49]
+    = .ok [.fin false 94153 2, .fin false 19209 (-108), .fin true 66842 (-4)] := by decide
+-- the hypotheses are satisfiable: the line of the second example as prefix ++ fields ++ tail
+example : let cells : List Cell := [⟨1, ['0'], "99013E+07".toList⟩, ⟨1, ['0'], "00000E+00".toList⟩, ⟨0, ['-', '0'], "12409E+03".toList⟩]
+    "  AA 1     1".toList ++ (renderAll cells ++ ['\n']) = "  AA 1     1 0.99013E+07 0.00000E+00-0.12409E+03\n".toList ∧
+    SepChain cells ∧ starts 12 cells = [12, 24, 36] := by
+  refine ⟨by decide, ⟨Or.inl ⟨by decide, by decide⟩, Or.inr ⟨rfl, "00000".toList, '+', '0', '0', by decide, by decide⟩, trivial⟩, by decide⟩
+
+/-! ### AUTOUGH2 rows: values are separated by blanks -/
+
+/-- An AUTOUGH2 row is `pre` (keys and index, as long as `start`) followed by whitespace and the printed numbers,
+    each followed by whitespace (non-empty between two numbers).  `read_table_line_AUTOUGH2` returns exactly the
+    values of the printed numbers, one per number. -/
+theorem autough2_row_split_correct (pre lead : Str) (toks : List (Str × Str))
+    (hlead : ∀ c ∈ lead, isStrWs c = true) (htoks : ToksOk toks) :
+    readTableLineAUTOUGH2 (pre ++ (lead ++ joinToks toks)) (some (pre.length : Int))
+      = .ok (toks.map (fun p => readField p.1)) := by
+  unfold readTableLineAUTOUGH2
+  have h1 : sliceO (pre ++ (lead ++ joinToks toks)) (some (pre.length : Int)) none = lead ++ joinToks toks := by
+    have := sliceBound_nat (pre ++ (lead ++ joinToks toks)).length pre.length
+    simp only [Int.ofNat_eq_natCast] at this
+    simp only [sliceO, this]
+    unfold slice
+    have hmin : min pre.length (pre ++ (lead ++ joinToks toks)).length = pre.length := by simp
+    rw [hmin, List.drop_left]
+    apply List.take_of_length_le
+    simp
+  rw [h1, splitWs_strip]
+  have h2 : splitWs (lead ++ joinToks toks) = toks.map (·.1) := by
+    unfold splitWs
+    rw [splitWs_go_ws lead _ hlead, splitWs_go_toks toks htoks]
+  rw [h2, mapM_readField, List.map_map]
+  rfl
+
+/-- and it characterises the other case: two numbers printed with no blank between them are one token for the
+    split (so the count of values no longer matches the column count, which `setup_table_AUTOUGH2` refuses) -/
+theorem autough2_adjacent_numbers_merge (a b : Str) (ha : ∀ c ∈ a, isStrWs c = false) (hb : ∀ c ∈ b, isStrWs c = false)
+    (hne : a ≠ []) : splitWs (a ++ b) = [a ++ b] := by
+  have h : ToksOk [(a ++ b, [])] := by
+    refine ⟨?_, ?_, by simp⟩
+    · cases a with
+      | nil => exact absurd rfl hne
+      | cons _ _ => simp
+    · intro c hc; rcases List.mem_append.mp hc with h | h
+      · exact ha c h
+      · exact hb c h
+  have := splitWs_go_toks _ h
+  simpa [splitWs, joinToks] using this
+
+example : readTableLineAUTOUGH2 "    AA  1         1      0.29971E+08      0.39992E+03 -0.10000E+01\r\n".toList (some 24)
+    = .ok [.fin false 29971 3, .fin false 39992 (-2), .fin true 10000 (-4)] := by decide
+example : ToksOk [("0.29971E+08".toList, "   ".toList), ("-0.1E+01".toList, "\r\n".toList)] := by
+  refine ⟨by decide, by decide, by decide, by decide, by decide, by decide, by decide⟩
 
 /-! ### the row-index, row-name and column-name ways of addressing a cell agree -/
 
